@@ -53,6 +53,7 @@ package server
 //@ func (*Server).get$1(req, id) (sv, err)
 //@   requires s != nil && dbInv(s.db)
 //@   ensures [C14 get.handler-one-critical-section] lockOps <= old(lockOps) + 1
+//@   ensures [C08 get.handler-returns-the-database-outcome-unchanged] (defined(call_GetConditional_1) && err == call_GetConditional_1 && sv == call_GetConditional_0) || (defined(call_GetVersion_1) && err == call_GetVersion_1 && sv == call_GetVersion_0) || (defined(call_Get_1) && err == call_Get_1 && sv == call_Get_0)
 //@   ensures [C01,C08 get.handler-deny] !allows(id.Permissions, "get", req.Name) ==> (sv == nil && errIs(err, db.ErrAccessDenied))
 //@   ensures [C09 get.dispatch-conditional] (req.Version != 0 && req.UpdateIfChanged && allows(id.Permissions, "get", req.Name)) ==>
 //@        (errIs(err, api.ErrValueNotChanged) == (has(s.db.kv.secrets, req.Name) && s.db.kv.secrets[req.Name].ActiveVersion == req.Version))
@@ -63,31 +64,37 @@ package server
 //@ func (*Server).info$1(req, id) (info, err)
 //@   requires s != nil && dbInv(s.db)
 //@   ensures [C14 info.handler-one-critical-section] lockOps <= old(lockOps) + 1
+//@   ensures [C08 info.handler-returns-the-database-outcome-unchanged] err == call_Info_1 && info == call_Info_0
 //@   ensures [C01,C08 info.handler-deny] !allows(id.Permissions, "info", req.Name) ==> (info == nil && errIs(err, db.ErrAccessDenied))
 //@   ensures [C08 info.handler] dbInv(s.db) && noEffect(s.db) && (err == nil ==> (info != nil && info.Name == req.Name))
 //@ func (*Server).list$1(req, id) (infos, err)
 //@   requires s != nil && dbInv(s.db)
 //@   ensures [C14 list.handler-one-critical-section] lockOps <= old(lockOps) + 1
+//@   ensures [C08 list.handler-returns-the-database-outcome-unchanged] err == call_List_1
 //@   ensures [C01,C08 list.handler] dbInv(s.db) && noEffect(s.db) && (err == nil ==> (forall j int :: (0 <= j && j < len(infos)) ==> listedOK(s.db, id, infos[j])))
 //@ func (*Server).put$1(req, id) (ver, err)
 //@   requires s != nil && dbInv(s.db) && counterRoom(s.db, req.Name)
 //@   ensures [C14 put.handler-one-critical-section] lockOps <= old(lockOps) + 1
+//@   ensures [C08 put.handler-returns-the-database-outcome-unchanged] err == call_Put_1 && ver == call_Put_0
 //@   ensures [C01,C08 put.handler-deny] !allows(id.Permissions, "put", req.Name) ==> (ver == 0 && err != nil && noEffect(s.db))
 //@   ensures [C02,C08,C18 put.handler] dbInv(s.db) && (err == nil ==> (ver != 0 && hasVersion(s.db.kv, req.Name, ver) && s.db.kv.secrets[req.Name].Versions[ver] == bytes(req.Value)))
 //@ func (*Server).activate$1(req, id) (r, err)
 //@   requires s != nil && dbInv(s.db)
 //@   ensures [C14 activate.handler-one-critical-section] lockOps <= old(lockOps) + 1
+//@   ensures [C08 activate.handler-returns-the-database-outcome-unchanged] err == call_Activate
 //@   ensures [C01,C08 activate.handler-deny] !allows(id.Permissions, "activate", req.Name) ==> (err != nil && noEffect(s.db))
 //@   ensures [C02,C08 activate.handler] dbInv(s.db) && (err == nil ==> (req.Version != 0 && s.db.kv.secrets[req.Name].ActiveVersion == req.Version))
 //@ func (*Server).deleteVersion$1(req, id) (r, err)
 //@   requires s != nil && dbInv(s.db)
 //@   ensures [C14 deleteVersion.handler-one-critical-section] lockOps <= old(lockOps) + 1
+//@   ensures [C08 deleteVersion.handler-returns-the-database-outcome-unchanged] err == call_DeleteVersion
 //@   ensures [C01,C08 deleteversion.handler-deny] !allows(id.Permissions, "delete", req.Name) ==> (errIs(err, db.ErrAccessDenied) && noEffect(s.db))
 //@   ensures [C01,C02,C08 deleteversion.handler] dbInv(s.db) && (err == nil ==> (req.Version != 0 && has(s.db.kv.secrets, req.Name) && !has(s.db.kv.secrets[req.Name].Versions, req.Version) &&
 //@        s.db.kv.secrets[req.Name].ActiveVersion == old(s.db.kv.secrets[req.Name].ActiveVersion)))
 //@ func (*Server).deleteSecret$1(req, id) (r, err)
 //@   requires s != nil && dbInv(s.db)
 //@   ensures [C14 deleteSecret.handler-one-critical-section] lockOps <= old(lockOps) + 1
+//@   ensures [C08 deleteSecret.handler-returns-the-database-outcome-unchanged] err == call_Delete
 //@   ensures [C01,C08 delete.handler-deny] !allows(id.Permissions, "delete", req.Name) ==> (errIs(err, db.ErrAccessDenied) && noEffect(s.db))
 //@   ensures [C01,C02,C08 delete.handler] dbInv(s.db) && ((err == nil && !hasPrefix(req.Name, "_internal/")) ==> !has(s.db.kv.secrets, req.Name))
 
@@ -175,6 +182,7 @@ package server
 //@   ensures [C17 backup.body-is-file] err == nil ==> (uploads == old(uploads) + 1 && lastUploadBody == diskData(disk, s.db.kv.path) && diskHas(disk, s.db.kv.path))
 //@   ensures [C17 backup.fail-no-object] err != nil ==> uploads == old(uploads)
 //@   ensures [C17 backup.one-attempt] (uploadAttempts == old(uploadAttempts) && uploads == old(uploads) && lastAttemptAt == old(lastAttemptAt)) || (uploadAttempts == old(uploadAttempts) + 1 && lastAttemptAt >= old(clock) && lastAttemptAt <= clock)
+//@   at call PutObject: assert [C17 backup.upload-is-cancelled-with-the-server] parentOf(arg_ctx) == ctx
 //@   at call PutObject: assert [C17 backup.bounded-5min] hasDeadline(arg_ctx) && deadlineOf(arg_ctx) <= old(clock) + 300000000000 + (clock - old(clock))
 
 //@ func (*Server).periodicBackup(s, ctx)
